@@ -325,6 +325,7 @@ Proof.
   destruct (negb (go_disable_traits o) && has_any (eff_shapes c) err_shapes); [discriminate|].
   destruct (go_ci o && mem "ci_collision" (eff_shapes c)); [discriminate|].
   destruct (negb (go_disable_traits o) && has_any (gc_shapes c) c12_shapes); [discriminate|].
+  destruct (has_any (gc_shapes c) scoped_shapes); [discriminate|].
   destruct (genum_ok T o) eqn:Eok; cbn [negb] in Hp; [|discriminate].
   split; [reflexivity|]. intros Hd n Hin. rewrite Hd in Hp. cbn [negb andb] in Hp.
   destruct (forallb _ (gc_kinds c)) eqn:Ek; cbn [negb] in Hp; [|discriminate].
